@@ -84,7 +84,11 @@ func gen(g *kernel.Rng, seed uint64, tier string) *kernel.Plan {
 				c = int64(g.Range(1, 70000))
 			}
 			cs[e] = c
-			p.Ops = append(p.Ops, kernel.Op{K: "scs", T: e, N: []int64{c}})
+			scsSID := int64(0) // the statement says any stream id, also for protocol-control types
+			if g.Bool(0.25) {
+				scsSID = g.OneOf(1, 2, 0x7FFFFFFF, int64(g.U32()>>1))
+			}
+			p.Ops = append(p.Ops, kernel.Op{K: "scs", T: e, N: []int64{c, scsSID}})
 			continue
 		}
 		var typ int64
